@@ -615,6 +615,40 @@ def r167(repo, ctx):
         ctx.ok('R16.7', EF, 'StrainEnergyParameters', 0, f'the {len(shared)} class-level arrays are only ever rebound on the instance, never modified in place', construct=f'shared: {sorted(shared)}')
 
 
+def r169(repo, ctx, index):
+    """scale invariance of the Eshelby machinery of an ellipsoid: Dijkl(radius, c4) is homogeneous of degree 0 in the radii
+    (prod(r) / beta**3 under the integral), so the Eshelby tensor depends on the aspect ratios only and the strain energy is
+    proportional to the volume.  Decided by degree inference over the expressions of Dijkl, sphInt and _beta."""
+    from .. import homog as H
+    from fractions import Fraction
+    key = (EF, 'EllipsoidalEnergyDescription')
+    if key not in index.classes:
+        cands = [k for k in index.classes if k[0] == EF and 'Dijkl' in index.methods(k)]
+        if not cands:
+            raise AnchorMissing(f'class with Dijkl not found in {EF}')
+        key = cands[0]
+    methods = {}
+    for k in reversed(index.mro(key)):
+        if k in index.classes:
+            methods.update(index.methods(k))
+    f = methods.get('Dijkl')
+    if f is None:
+        raise AnchorMissing('Dijkl not found')
+    pn = U.params(f)
+    dg = H.Degrees(methods, inverse_methods=('_ohm_inverse', '_ohm_quickInverse', '_OhmGeneral'))
+    try:
+        d = dg.function(f, {pn[1]: Fraction(1), '__lengths__': {pn[1]: 3}})
+    except H.Inhomogeneous as e:
+        ctx.violation('R16.9', EF, f'{key[1]}.Dijkl', e.node, f'{U.src(e.node)[:80]} adds terms of degree {" and ".join(str(x) for x in e.degrees)} in the radii: the expression is not homogeneous, '
+                      'so the Eshelby tensor depends on the absolute size and the strain energy is no longer proportional to the volume', construct=U.src(e.node)[:100])
+        return
+    except H.Unknown as e:
+        ctx.undecided('R16.9', EF, f'{key[1]}.Dijkl', f, f'degree inference left its fragment: {e}')
+        return
+    ctx.check(d == 0, 'R16.9', EF, f'{key[1]}.Dijkl', f, f'Dijkl is homogeneous of degree 0 in the radii ({dg.sums} sums checked for equal degrees): the Eshelby tensor depends on aspect ratios only',
+              f'Dijkl is homogeneous of degree {d} in the radii instead of 0: the strain energy does not scale with the volume', construct=f'Dijkl: degree {d}')
+
+
 def check(repo, ctx, index, purity):
     ctx.explanation = EXPLANATION
     ctx.assumptions += ['exact trigonometric evaluation by sympy', 'positivity / scaling / rotation invariance / closed forms are numeric and not decided']
@@ -625,3 +659,4 @@ def check(repo, ctx, index, purity):
     r165(repo, ctx)
     r167(repo, ctx)
     r168(repo, ctx)
+    r169(repo, ctx, index)
